@@ -532,7 +532,14 @@ func (st *ex4State) handler(sv *ex4Server) server4.Handler {
 				rep.TransactionID[3] ^= 0x40
 				s.Fault("reply-wrong-xid")
 			case 2:
-				rep.ClientHWAddr = otherHW
+				switch t.Choose(4) {
+				case 0, 1:
+					rep.ClientHWAddr = otherHW
+				case 2:
+					rep.ClientHWAddr = net.HardwareAddr{} // hlen 0
+				case 3:
+					rep.ClientHWAddr = append(append(net.HardwareAddr{}, clientHW...), 0, 0)
+				}
 				s.Fault("reply-wrong-hw")
 			case 3:
 				rep.OpCode = dhcpv4.OpcodeBootRequest
